@@ -783,7 +783,7 @@ class C08(vlib.Driver):
                 terms.append(f"check_rainbow {coq_Q(g32)} {coq_Q(gn)} {coq_Q(f32(rb['vmin']))} {coq_Q(f32(rb['vmax']))} {coq_Q(dz)} "
                              f"{Ql(t['support'])} {coq_bool(use1)} {coq_bool(usen)} {rrows(t['one'])} {rrows(t['n'])} {Ql(t['w'])} "
                              f"{coq_Q(out['loss'])} {elem_obs}")
-                terms.append(f"check_rainbow_mass false {Ql(t['support'])} {rrows(t['one'])} && check_rainbow_mass false {Ql(t['support'])} {rrows(t['n'])}")
+                terms.append(f"check_rainbow_mass true {Ql(t['support'])} {rrows(t['one'])} && check_rainbow_mass true {Ql(t['support'])} {rrows(t['n'])}")
             elif algo in SINGLE_AC:
                 nc = 1 if algo == "DDPG" else 2
                 terms.append(f"check_ac {g} {nc}%nat {arows(t)} {arows(t2)} {coq_Q(out['loss'])}")
